@@ -368,6 +368,9 @@ func newDst(t *ty) reflect.Value {
 
 // toGo builds the Go value of type t.goT that denotes v.
 func toGo(t *ty, v *val) reflect.Value {
+	if t.toGoFn != nil {
+		return t.toGoFn(v)
+	}
 	out := reflect.New(t.goT).Elem()
 	switch t.k {
 	case kU8, kU16, kU32, kU64, kCompact:
@@ -459,6 +462,9 @@ func toGo(t *ty, v *val) reflect.Value {
 func fromGo(t *ty, g reflect.Value) (*val, error) {
 	if g.Type() != t.goT {
 		return nil, fmt.Errorf("fromGo %s: Go type %s, want %s", t.name, g.Type(), t.goT)
+	}
+	if t.fromGoFn != nil {
+		return t.fromGoFn(g)
 	}
 	switch t.k {
 	case kU8, kU16, kU32, kU64, kCompact:
